@@ -32,8 +32,10 @@ type Action struct {
 }
 
 type gor struct {
-	id    string
-	forks int
+	id     string
+	forks  int
+	autoN  map[string]int // visits of this goroutine per live machine-inserted point
+	noAuto bool           // a select loop: machine-inserted points do not stop it
 }
 
 type parked struct {
@@ -41,6 +43,8 @@ type parked struct {
 	label string
 	key   interface{}
 	wake  chan struct{}
+	// cond, when set, must hold for the goroutine to be released (it waits for a mutex)
+	cond func() bool
 }
 
 // Policy decides how the driver picks among enabled actions.
@@ -107,6 +111,19 @@ type Sim struct {
 	FreeYields int
 	// TraceFile, when set, receives every trace line at once (replay mode)
 	TraceFile *os.File
+
+	// machine-inserted interleaving points (instrumented build only): a site is live in this run
+	// iff hash(site, AutoSalt)%256 < AutoDensity; a goroutine that reaches a live site is preempted
+	// there with probability AutoPreempt/256 (a handful of preemptions per run, at many places)
+	AutoDensity int
+	AutoSalt    uint64
+	AutoPreempt int
+	AutoParks   int
+	AutoVisits  int
+	AutoSites   map[string]int
+	MutexWaits  int
+	driver      uint64
+	lastG       string
 }
 
 func New(t *tape.Tape) *Sim {
@@ -127,6 +144,91 @@ func New(t *tape.Tape) *Sim {
 		ClassFire:   map[string]int{},
 		TraceCap:    400,
 		traceHash:   1469598103934665603,
+		AutoSites:   map[string]int{},
+		driver:      goid(),
+	}
+}
+
+// Auto is a machine-inserted interleaving point (simhook.AutoSimulator).
+func (s *Sim) Auto(site string) {
+	if s.AutoDensity <= 0 {
+		return
+	}
+	h := fnv.New64a()
+	h.Write([]byte(site))
+	var b [8]byte
+	for i := 0; i < 8; i++ {
+		b[i] = byte(s.AutoSalt >> (8 * i))
+	}
+	h.Write(b[:])
+	if int(h.Sum64()%256) >= s.AutoDensity {
+		return
+	}
+	id := goid()
+	if id == s.driver {
+		return
+	}
+	s.mu.Lock()
+	g := s.byGoid[id]
+	if g == nil || g.noAuto || s.down || s.Free {
+		// goroutines the simulator does not know, and select loops, are left alone
+		s.mu.Unlock()
+		return
+	}
+	// whether the goroutine is preempted here is a pure function of (run salt, its logical identity,
+	// the site, how often it has been at this site): no draw from the tape - several goroutines
+	// can run at once between two driver steps (a send wakes a receiver), the order in which they
+	// reach their points must not matter - and no round trip through the driver for the visits
+	// that go on
+	s.AutoVisits++
+	if g.autoN == nil {
+		g.autoN = map[string]int{}
+	}
+	g.autoN[site]++
+	n := g.autoN[site]
+	hp := fnv.New64a()
+	hp.Write(b[:])
+	hp.Write([]byte(g.id))
+	hp.Write([]byte{byte(n), byte(n >> 8), byte(n >> 16)})
+	hp.Write([]byte(site))
+	if int(hp.Sum64()>>8%256) >= s.AutoPreempt {
+		s.mu.Unlock()
+		return
+	}
+	s.AutoParks++
+	s.AutoSites[site]++
+	s.mu.Unlock()
+	s.park(g, "auto:"+site)
+}
+
+// NoAuto exempts the calling goroutine from machine-inserted points (simhook.SelectLoop).
+func (s *Sim) NoAuto() {
+	s.mu.Lock()
+	if g := s.byGoid[goid()]; g != nil {
+		g.noAuto = true
+	}
+	s.mu.Unlock()
+}
+
+// WaitFor parks the calling goroutine until cond holds (simhook.AutoSimulator; a mutex that is
+// held). cond is evaluated by the driver at quiescence and by the goroutine itself.
+func (s *Sim) WaitFor(label string, cond func() bool) {
+	id := goid()
+	if id == s.driver {
+		return
+	}
+	for {
+		s.mu.Lock()
+		g := s.byGoid[id]
+		if g == nil || s.down || s.Free || cond() {
+			s.mu.Unlock()
+			return
+		}
+		s.MutexWaits++
+		p := &parked{g: g, label: label, cond: cond, wake: make(chan struct{})}
+		s.parked[g.id] = p
+		s.mu.Unlock()
+		<-p.wake
 	}
 }
 
@@ -387,7 +489,14 @@ func (s *Sim) enabled(now time.Time) (items []enabledItem, nextAt time.Time) {
 			s.Held++
 			continue
 		}
-		items = append(items, enabledItem{id: "g:" + id + "@" + p.label, class: p.label, p: p})
+		if p.cond != nil && !p.cond() {
+			continue
+		}
+		class := p.label
+		if strings.HasPrefix(class, "auto:") {
+			class = "auto"
+		}
+		items = append(items, enabledItem{id: "g:" + id + "@" + p.label, class: class, p: p})
 	}
 	for id, a := range s.actions {
 		if !a.NotBefore.IsZero() && a.NotBefore.After(now) {
@@ -397,6 +506,18 @@ func (s *Sim) enabled(now time.Time) (items []enabledItem, nextAt time.Time) {
 			continue
 		}
 		items = append(items, enabledItem{id: "a:" + id, class: a.Class, a: a})
+	}
+	if s.AutoDensity > 0 {
+		// instrumented build: the canonical order must not depend on where a goroutine stands (the
+		// order in which it passes the points inside a loop over a Go map is the runtime's choice)
+		key := func(it enabledItem) string {
+			if it.p != nil {
+				return "g:" + it.p.g.id
+			}
+			return it.id
+		}
+		sort.Slice(items, func(i, j int) bool { return key(items[i]) < key(items[j]) })
+		return
 	}
 	sort.Slice(items, func(i, j int) bool { return items[i].id < items[j].id })
 	return
@@ -458,7 +579,7 @@ func (s *Sim) Step() (did bool, nextAt time.Time) {
 	pick := -1
 	pol := s.Policy
 	// classes released automatically
-	if len(pol.NoSearch) > 0 {
+	if pick < 0 && len(pol.NoSearch) > 0 {
 		for i, it := range items {
 			if pol.NoSearch[it.class] {
 				pick = i
@@ -528,6 +649,7 @@ func (s *Sim) Step() (did bool, nextAt time.Time) {
 			}
 		}
 		delete(s.parked, it.p.g.id)
+		s.lastG = it.p.g.id
 		s.mu.Unlock()
 		close(it.p.wake)
 	} else {
